@@ -160,6 +160,9 @@ func vPlain(t Term, env *Env) Term {
 // vVariantV: structural equality up to bijective variable renaming, returning a (possibly symbolic) bool;
 // atomic leaves are compared without forking.
 func vVariantV(a, b Term, ab, ba *rRename) bool {
+	if a == Term(rImplContext) || b == Term(rImplContext) {
+		return true // wherever the context of a built-in's error ended up (e.g. bound to a catcher's variable)
+	}
 	switch x := a.(type) {
 	case Variable:
 		y, ok := b.(Variable)
@@ -185,8 +188,8 @@ func vVariantV(a, b Term, ab, ba *rRename) bool {
 			return false
 		}
 		r := x.Functor() == y.Functor()
-		if x.Functor() == xError && y.Functor() == xError && x.Arity() == 2 {
-			// error(Formal, Context): Context is implementation defined (ISO 7.12.2), only Formal is compared
+		if x.Functor() == xError && y.Functor() == xError && x.Arity() == 2 && (y.Arg(1) == Term(rImplContext) || x.Arg(1) == Term(rImplContext)) {
+			// error(Formal, Context) raised by a built-in: Context is implementation defined (ISO 7.12.2), only Formal is compared
 			return vVariantV(x.Arg(0), y.Arg(0), ab, ba)
 		}
 		for i := 0; i < x.Arity(); i++ {
